@@ -1,14 +1,15 @@
 import PermutaModel.Driver.All
 
-/-- line protocol: `op arg1 arg2 …` (space separated) → one answer line -/
+/-- line protocol: `Cxx op arg1 arg2 …` (space separated) → one answer line -/
 partial def loop (h : IO.FS.Stream) (out : IO.FS.Stream) : IO Unit := do
   let line ← h.getLine
   if line.isEmpty then return ()
   let toks := (line.trimAscii.toString.splitOn " ").filter (· ≠ "")
   match toks with
   | [] => out.putStrLn "bad-op"
-  | op :: args =>
-    match Driver.dispatch op args with
+  | [_] => out.putStrLn "bad-op"
+  | prop :: op :: args =>
+    match Driver.dispatch prop op args with
     | some r => out.putStrLn r
     | none => out.putStrLn "bad-op"
   loop h out
